@@ -3,6 +3,7 @@ import LettreVerif.Model.Mime
 import LettreVerif.Spec.MimeParse
 import LettreVerif.Proofs.Mime
 import LettreVerif.Spec.StructuredDec
+import LettreVerif.Spec.Rfc2047Dec
 namespace LV.Driver.C11
 open LV LV.Driver LV.Mime LV.MimeParse
 
@@ -110,7 +111,8 @@ partial def agrees (root : Bool) : Want → Skel → Option String
               else none
             else
               if !(str "inline").isPrefixOf d then some "inline-disposition-differs"
-              else if field fields "content-id" != some ([60] ++ name ++ [62]) then some "inline-content-id-differs"
+              -- the content id as a reader shows it (an id with control characters is written as encoded-words)
+              else if (field fields "content-id").map Rfc2047Dec.decode != some ([60] ++ name ++ [62]) then some "inline-content-id-differs"
               else none
       if attErr.isSome then attErr else
       let exp := C10.expectedContent isStr content
